@@ -22,6 +22,7 @@ EXTERNAL_CONSTS = {'logging.DEBUG': 10, 'logging.INFO': 20, 'logging.WARNING': 3
 intval = z3.Function('intval', RefSort, z3.IntSort())             # numeric value of an int-derived object
 absval = z3.Function('absval', RefSort, z3.IntSort())       # value identity of an opaque object (== compares it)
 birth = z3.Function('birth', RefSort, z3.IntSort())         # allocation time (fresh objects > 0)
+deep = z3.Function('deep', RefSort, z3.BoolSort())         # the object shares no mutable part with an older object (deepcopy)
 int2str = z3.Function('int2str', z3.IntSort(), z3.StringSort())
 str2int = z3.Function('str2int', z3.StringSort(), z3.IntSort(), z3.IntSort())   # (text, base) -> int
 
@@ -1086,7 +1087,7 @@ def _print(ex, fn, args, kw, node):
 def _deepcopy(ex, fn, args, kw, node):
     v = args[0]
     ex.used_assumptions.add('A-DEEPCOPY: deepcopy returns a fresh object with equal abstract value')
-    return deep_copy(ex, v, {})
+    return deep_copy(ex, v, {'__deep__': fn.name == 'copy.deepcopy'})
 
 
 def deep_copy(ex, v, memo):
@@ -1101,6 +1102,8 @@ def deep_copy(ex, v, memo):
         ex.assume(absval(r) == absval(v.t))
         ex.assume(birth(r) == ex.st.ghost['clock'])
         ex.assume(r != v.t)
+        if memo.get('__deep__', True):
+            ex.assume(deep(r))
         # field functions agree on equal abstract values only through == ; copy keeps declared flat fields
         spec = ex.class_specs.get(v.cls) if v.cls else None
         if spec:
@@ -1408,6 +1411,15 @@ def _replace(ex, fn, args, kw, node):
         # and no other character appears that was in neither the subject nor the replacement
         ex.used_assumptions.add('A-BUILTIN: s.replace(c, t) contains no c (c not in t) and introduces only characters of t')
         ex.assume(z3.Not(z3.Contains(r, z3.StringVal(ca))))
+        if len(cb) == 1:
+            D0 = z3.Range('0', '9')
+            dig = z3.InRe(s.t, z3.Star(z3.Union(D0, z3.Re(ca))))
+            if not ex.feasible(z3.Not(dig)):
+                # the subject is known to consist of digits and c only: the digit fact subsumes the per-character
+                # facts below (which cost both solvers the decision when stated in addition)
+                ex.assume(z3.InRe(r, z3.Star(z3.Union(D0, z3.Re(cb)))))
+                ex.assume(z3.Length(r) == z3.Length(s.t))
+                return VStr(r)
         for ch in ('\r', '\n', '\t', '"', "'", '\\', '<', '>', '&', ':', '/'):
             if ch != ca and ch not in cb:
                 ex.assume(z3.Implies(z3.Not(z3.Contains(s.t, z3.StringVal(ch))), z3.Not(z3.Contains(r, z3.StringVal(ch)))))
